@@ -721,13 +721,14 @@ def jobs(tier, seed):
             specs.append(("closure", name, sh, d[:2], None, (0,)))
             specs.append(("bounded", name, sh, d[:2], 6, (0, 1)))
         for name, sh in STRUCTURAL_SHAPES.items():
-            specs.append(("structural", name, sh, (0, 1), 4, (0,)))
+            # depth 4 on the small shapes; the shapes with dependency-only edges (largest operation menus) stay at depth 3
+            specs.append(("structural", name, sh, (0, 1), 3 if name.startswith("s-dep") else 4, (0,)))
         for name, sh in FAIL_SHAPES.items():
             one_input = not name.startswith("fail:B2/")
             specs.append(("rw", name, sh, (0, 1), None if one_input else 6, (0,)))
             specs.append(("bounded", name, sh, (0, 1), 5, (0,)))
         specs.append(("nexus", "registry", None, None, 6, None))
-        specs.append(("nexus", "registry-full", None, None, 4, None))
+        specs.append(("nexus", "registry-full", None, None, 3, None))
     # de-duplicate identical specs (asc == desc when no node has two children)
     seen, out = set(), []
     for s in specs:
